@@ -753,17 +753,22 @@ fn build_case(w: &Workload, wid: usize, r: &RunResult, hits_free: u64) -> Case {
     for (i, (_, q)) in flat.iter().enumerate() { queues.entry(arm_of(q).0).or_default().push(i); }
     for q in queues.values_mut() { q.reverse(); }
     let mut assigned: Vec<Vec<usize>> = vec![];
-    for b in &batches {
+    // a trace that cannot be attributed (the writer wrote a message the workload did not send, or wrote one twice) is
+    // NOT skipped: the case is still judged by the oracle on acknowledgements and visibility (every request then
+    // counts as "never reached a batch", so the model disagrees in any case and the check reports the run)
+    let mut unattributable: Option<String> = None;
+    'outer: for b in &batches {
         let mut reqs = vec![];
         for (arm, groups) in b {
             if *arm == 13 { continue; }
             match queues.get_mut(arm).and_then(|q| q.pop()) {
                 Some(i) if arm_of(&flat[i].1).1 == *groups => reqs.push(i),
-                _ => return skip(format!("trace message arm {} groups {} matches no request", arm, groups)),
+                _ => { unattributable = Some(format!("trace message arm {} groups {} matches no request (written twice or never sent)", arm, groups)); break 'outer; }
             }
         }
         assigned.push(reqs);
     }
+    if unattributable.is_some() { assigned.clear(); }
     let sent: HashSet<usize> = assigned.iter().flatten().cloned().collect();
     let unsent: Vec<usize> = (0..flat.len()).filter(|i| !sent.contains(i)).collect();
     // acknowledgements and live view
@@ -794,6 +799,7 @@ fn build_case(w: &Workload, wid: usize, r: &RunResult, hits_free: u64) -> Case {
         _ => "FNone".to_string(),
     };
     let kind = match (r.mode, r.alive, fired) {
+        _ if unattributable.is_some() => "unattributable",
         (m, false, _) if m == vf::MODE_KILL => "kill",
         (m, true, _) if m == vf::MODE_KILL => "kill-not-reached",
         (m, _, 1) if m == vf::MODE_FAIL => "fail",
@@ -843,7 +849,7 @@ fn build_case(w: &Workload, wid: usize, r: &RunResult, hits_free: u64) -> Case {
     let n_ok = ack.iter().filter(|a| **a == 1).count();
     let n_err = ack.iter().filter(|a| **a == 2).count();
     let n_vis = vis.iter().filter(|v| **v == 1).count();
-    Case { kind: kind.into(), coq, obs, meta: json!({"base": meta_base, "batches": assigned, "unsent": unsent, "timeouts": timeouts, "verifier_retries": r.retries,
+    Case { kind: kind.into(), coq, obs, meta: json!({"base": meta_base, "batches": assigned, "unsent": unsent, "timeouts": timeouts, "verifier_retries": r.retries, "unattributable": unattributable,
         "write_buffer_length": w.buffer, "requests_by_kind": by_kind, "batch_sizes": assigned.iter().map(|b| b.len()).collect::<Vec<_>>(),
         "acknowledged_ok": n_ok, "reported_failed": n_err, "visible_after_restart": n_vis, "fatal_point": if r.alive { 0 } else { last_point },
         "vis_before_restart": ver["vis0"], "journal_mode": ver["journal_mode"], "requests": flat.iter().map(|(_, q)| format!("{:?}", q)).collect::<Vec<_>>() }) }
@@ -1066,7 +1072,7 @@ fn parent() {
     let mut retried = 0;
     for (wid, r) in free.iter().chain(faulty.iter()) {
         let mut c = build_case(&workloads[*wid], *wid, r, hits_free[*wid]);
-        if c.kind == "unscheduled" || c.kind == "broken-run" {
+        if c.kind == "unscheduled" || c.kind == "broken-run" || c.kind == "unattributable" {
             // once more, alone
             retried += 1;
             let r2 = run_one(&exe, &base, *wid, &specs[*wid], r.mode, r.k);
@@ -1130,7 +1136,8 @@ fn parent() {
     if std::env::var("VERIF_C13_KEEP").is_err() { let _ = std::fs::remove_dir_all(&base); }
     eprintln!("c13: {} runs {:?}, {} repeated", n, counts, retried);
     let bad = counts.get("unscheduled").cloned().unwrap_or(0) + counts.get("broken-run").cloned().unwrap_or(0);
-    if bad * 10 > n { eprintln!("c13: too many runs could not be used ({} of {})", bad, n); std::process::exit(3); }
+    // only runs that were too slow for the time limits may be left out (after one repetition), and only a few
+    if bad * 33 > n { eprintln!("c13: too many runs could not be used ({} of {})", bad, n); std::process::exit(3); }
 }
 
 fn main() {
